@@ -137,7 +137,7 @@ func cmdCheck(args []string) int {
 		seed, _ = strconv.Atoi(s)
 	}
 	t0 := time.Now()
-	evPath := filepath.Join(verifDir(), "evidence", *prop+".json")
+	evPath := filepath.Join(evidenceDir(), *prop+".json")
 	os.Remove(evPath)
 
 	fail := func(msg string) int {
@@ -212,7 +212,7 @@ func cmdCheck(args []string) int {
 	}
 
 	sort.SliceStable(all, func(i, j int) bool { return all[i].Key() < all[j].Key() })
-	os.RemoveAll(filepath.Join(verifDir(), "evidence", "replay", *prop))
+	os.RemoveAll(filepath.Join(evidenceDir(), "replay", *prop))
 	discharged, violations := 0, 0
 	var knownMatched []string
 	var samples []any
@@ -304,6 +304,13 @@ func cachedRun(name string, run EngineFunc, w *World, tier string) *EngineResult
 	return r
 }
 
+func evidenceDir() string {
+	if d := os.Getenv("VERIF_EVIDENCE_DIR"); d != "" {
+		return d
+	}
+	return filepath.Join(verifDir(), "evidence")
+}
+
 type replayFile struct {
 	Property   string     `json:"property"`
 	Obligation Obligation `json:"obligation"`
@@ -312,7 +319,7 @@ type replayFile struct {
 }
 
 func writeReplay(prop string, n int, o Obligation) string {
-	p := filepath.Join(verifDir(), "evidence", "replay", prop, fmt.Sprintf("%s-%d.json", prop, n))
+	p := filepath.Join(evidenceDir(), "replay", prop, fmt.Sprintf("%s-%d.json", prop, n))
 	writeJSON(p, replayFile{Property: prop, Obligation: o, Engine: engineOfRule(o.Rule), Hint: "bin/tiverif replay " + p})
 	return p
 }
